@@ -24,7 +24,8 @@ def _find_common_type(array_types, scalar_types):
     if array_type.kind not in kinds or scalar_type.kind not in kinds:
         return array_type
     if kinds.index(scalar_type.kind) > kinds.index(array_type.kind):
-        return scalar_type
+        # smallest type of the scalar's kind that also holds every array value
+        return np.promote_types(scalar_type, array_type)
     return array_type
 
 
